@@ -252,119 +252,164 @@ def r3_reproducible(ctx, chk, rule="C15.3"):
             chk.violation(rule, GEN, "`%s`: a separate generator is not covered by random.seed(seed)" % src(c), expected="module-level generator", found=src(c), construct="generator separate Random")
 
 
+def table_cells(sx, name, rows_src, cols_src):
+    """How the table `name` is filled: ('ok', element term) if it is `rows` rows of `cols` unconditional appends - in the
+    idiom `t.append([]); t[i].append(x)`, `row = []; row.append(x); t.append(row)` or nested comprehensions;
+    ('bad', text) if recognisably something else; (None, text) if not recognised."""
+    for Lo in sx.loops.values():
+        if Lo.kind != "for" or Lo.source != rows_src:
+            continue
+        if Lo.has_break or Lo.has_return or Lo.cont != FALSE:
+            return "bad", "the row loop exits early"
+        if Lo.init.get(name) != ("list", ()):
+            continue
+        up = Lo.update.get(name)
+        acc = ("acc", Lo.id, name)
+        inner = [sx.loops[i] for i in Lo.inner if sx.loops[i].kind == "for"]
+        # idiom A: t.append([]) per row, t[i].append(x) per column
+        if up == simp(("cat", acc, ("list", (("list", ()),)))):
+            cells = []
+            for Li in inner:
+                for e in Li.effects:
+                    if e[1] == "call" and e[2][0] == "mcall" and e[2][2] == "append" and e[2][1][0] == "idx" and e[2][1][2] == ("elem", Lo.id) \
+                            and any(t == acc for t in C02._sub(e[2][1][1])):
+                        cells.append((Li, e[0], e[2][3][0]))
+            if len(cells) != 1:
+                return "bad", "%d appends to %s[i] per column" % (len(cells), name)
+            Li, cond, val = cells[0]
+            if Li.source != cols_src:
+                return "bad", "columns are filled by a loop over `%s`" % show(Li.source)
+            if cond != TRUE or Li.has_break or Li.cont != FALSE:
+                return "bad", "the per-column append is conditional (`%s`)" % show(cond)
+            return "ok", val
+        # idiom B: row = []; row.append(x) per column; t.append(row)
+        if up is not None and up[0] == "cat" and up[1] == acc and up[2][0] == "list" and len(up[2][1]) == 1:
+            row = up[2][1][0]
+            if row[0] == "res" and row[1] in sx.loops:
+                Li = sx.loops[row[1]]
+                fo = classify(Li).get(row[2])
+                if Li.source != cols_src:
+                    return "bad", "columns are filled by a loop over `%s`" % show(Li.source)
+                if fo is not None and fo.kind == "COLLECT" and Li.init.get(row[2]) == ("list", ()) and Li.filter == TRUE and not Li.has_break and Li.cont == FALSE:
+                    return "ok", fo.term
+                return "bad", "a row is not `width` unconditional appends (%s)" % (fo,)
+            if row[0] == "compr":
+                Li = sx.loops[row[1]]
+                if Li.source != cols_src:
+                    return "bad", "columns come from `%s`" % show(Li.source)
+                if Li.filters:
+                    return "bad", "row comprehension is filtered"
+                return "ok", Li.elt
+            return None, "row value `%s`" % show(row)[:80]
+    return None, "no row loop over `%s` filling `%s`" % (show(rows_src), name)
+
+
 def r45_shape_values(ctx, chk, rule4="C15.4", rule5="C15.5", rule6="C15.6"):
     f = ctx.func(GEN + "::gen_rnd_board")
-    sx = SymX(ctx, f, inline_depth=0).run()
+    sx = SymX(ctx, f, inline_depth=2, no_inline=("get_random_moves",)).run()
     length, width = ("v", "length"), ("v", "width")
-    outer = [l for l in sx.loops.values() if l.kind == "for" and l.source == ("call", "range", (length,), ())]
-    if len(outer) != 1:
-        chk.violation(rule4, f.where(), "no single `for i in range(length)` loop in gen_rnd_board (loops: %s)" % [show(l.source) for l in sx.loops.values()],
-                      expected="range(length) rows", found=[show(l.source) for l in sx.loops.values()], construct="gen_rnd_board row loop")
+    rows_src, cols_src = ("call", "range", (length,), ()), ("call", "range", (width,), ())
+    ret = sx.ret
+    if ret[0] != "tup" or len(ret[1]) != 3:
+        chk.undecided(rule4, f.where(), "gen_rnd_board does not return (moves, rewards, loose_tiles): %s" % show(ret)[:80])
         return
-    Lo = outer[0]
-    inner = [sx.loops[i] for i in Lo.inner if sx.loops[i].kind == "for"]
-    if len(inner) != 1 or inner[0].source != ("call", "range", (width,), ()):
-        chk.violation(rule4, f.where(Lo.node), "rows are not filled by a single `for _ in range(width)` loop (inner sources: %s)" % [show(l.source) for l in inner],
-                      expected="range(width) columns", found=[show(l.source) for l in inner], construct="gen_rnd_board column loop")
-        return
-    Li = inner[0]
-    if Lo.has_break or Li.has_break or Lo.cont != FALSE or Li.cont != FALSE:
-        chk.violation(rule4, f.where(Lo.node), "a board loop exits early", expected="full rows and columns", found="break/continue", construct="gen_rnd_board early exit")
-        return
-    i = ("elem", Lo.id)
-    rows = {}
-    for v, u in Lo.update.items():
-        if Lo.init.get(v) == ("list", ()):
-            rows[v] = u
-    # per-row: X.append([]) then per-column X[i].append(value)
-    cells = {}
-    for e in Li.effects:
-        if e[1] == "call" and e[2][0] == "mcall" and e[2][2] == "append" and e[2][1][0] == "idx" and e[2][1][2] == i:
-            base = e[2][1][1]
-            accs = [t for t in C02._sub(base) if t[0] in ("acc", "res") and t[1] == Lo.id]
-            name = accs[0][2] if accs else show(base)
-            cells.setdefault(name, []).append((e[0], e[2][3][0]))
-    for tbl in ("rewards", "loose_tiles"):
-        if tbl not in cells or len(cells[tbl]) != 1 or cells[tbl][0][0] != TRUE:
-            chk.violation(rule4, f.where(Li.node), "`%s` does not get exactly one unconditional append per column (%s)" % (tbl, [(show(c), show(v)[:40]) for c, v in cells.get(tbl, [])]),
-                          expected="%s[i].append(value) once per column" % tbl, found=str(len(cells.get(tbl, []))), construct="gen_rnd_board %s shape" % tbl)
-        else:
-            chk.ok(rule4, f.where(Li.node), "%s: `length` rows x `width` unconditional appends" % tbl)
+    names = {}
+    for slot, what in ((1, "rewards"), (2, "loose_tiles")):
+        t = ret[1][slot]
+        names[what] = t[2] if t[0] == "res" else None
     U = ("call", "random.random", (), ())
-    # loose flag
-    if "loose_tiles" in cells:
-        val = cells["loose_tiles"][0][1]
+    vals = {}
+    for what, nm in names.items():
+        if nm is None:
+            chk.undecided(rule4, f.where(), "returned %s is `%s`" % (what, show(ret[1][1 if what == "rewards" else 2])[:80]))
+            continue
+        verdict, val = table_cells(sx, nm, rows_src, cols_src)
+        if verdict == "ok":
+            chk.ok(rule4, f.where(), "%s: `length` rows x `width` unconditional appends" % what)
+            vals[what] = val
+        elif verdict == "bad":
+            chk.violation(rule4, f.where(), "%s is not a length x width table: %s" % (what, val), expected="range(length) rows of range(width) appends", found=val,
+                          construct="gen_rnd_board %s shape" % what)
+        else:
+            chk.undecided(rule4, f.where(), "%s: %s" % (what, val))
+    if "loose_tiles" in vals:
+        val = vals["loose_tiles"]
         p = ("v", [q for q in f.params if "loose" in q][0])
         want = simp(("ite", simp(("cmp", "<", U, p)), C(1), C(0)))
-        if val == want:
-            chk.ok(rule5, f.where(Li.node), "loose flag = 1 if random.random() < %s else 0 (Bernoulli(%s); values in {0,1})" % (p[1], p[1]))
+        alt = simp(("call", "int", (simp(("cmp", "<", U, p)),), ()))
+        if val in (want, alt):
+            chk.ok(rule5, f.where(), "loose flag = 1 if random.random() < %s else 0 (Bernoulli(%s); values in {0,1})" % (p[1], p[1]))
         else:
-            chk.violation(rule5, f.where(Li.node), "loose flag is `%s`; specification: 1 if U < %s else 0 with a fresh uniform U" % (show(val), p[1]), expected=show(want), found=show(val),
+            chk.violation(rule5, f.where(), "loose flag is `%s`; specification: 1 if U < %s else 0 with a fresh uniform U" % (show(val), p[1]), expected=show(want), found=show(val),
                           construct="gen_rnd_board loose flag")
-    # reward formula
-    if "rewards" in cells:
-        val = cells["rewards"][0][1]
-        m = ("v", "max_reward")
-        verdict = reward_formula(val, U, m)
+    if "rewards" in vals:
+        val = vals["rewards"]
+        verdict = reward_formula(val, U, ("v", "max_reward"))
         if verdict is True:
-            chk.ok(rule6, f.where(Li.node), "reward = floor(-log(a + U*(1-a)) / log 2), a = 2^-(max_reward+1): argument in [a,1] => reward in [0, max_reward] (max_reward+1 only for U == 0.0)")
+            chk.ok(rule6, f.where(), "reward = floor(-log(a + U*(1-a)) / log 2), a = 2^-(max_reward+1): argument in [a,1] => reward in [0, max_reward] (max_reward+1 only for U == 0.0)")
         elif verdict is None:
-            chk.undecided(rule6, f.where(Li.node), "reward expression `%s` not recognised" % show(val)[:200])
+            chk.undecided(rule6, f.where(), "reward expression `%s` not recognised" % show(val)[:200])
         else:
-            chk.violation(rule6, f.where(Li.node), "reward expression: %s" % verdict, expected="floor(-log(a + U*(1-a))/log(2)) with a = 2^-(max_reward+1)", found=show(val)[:200],
+            chk.violation(rule6, f.where(), "reward expression: %s" % verdict, expected="floor(-log(a + U*(1-a))/log(2)) with a = 2^-(max_reward+1)", found=show(val)[:200],
                           construct="gen_rnd_board reward formula")
     # moves
     g = ctx.func(GEN + "::get_random_moves")
-    sg = SymX(ctx, g, inline_depth=0).run()
-    ml = [l for l in sg.loops.values() if l.kind == "for"]
-    mv = [e for e in sx.final.env.items() if e[0] == "moves"]
-    ret = sx.ret
-    called = ret[0] == "tup" and ret[1] and ret[1][0] == ("call", "get_random_moves", (length, width, ("v", "force_down")), ())
+    called = ret[1][0] == ("call", "get_random_moves", (length, width, ("v", "force_down")), ())
     if not called:
-        chk.violation(rule4, f.where(), "gen_rnd_board does not return get_random_moves(length, width, force_down) as the arrows (returns `%s`)" % show(ret[1][0] if ret[0] == "tup" else ret)[:80],
-                      expected="get_random_moves(length, width, force_down)", found=show(ret)[:120], construct="gen_rnd_board moves")
-    if len(ml) != 1 or ml[0].source != ("call", "range", (("v", g.params[0]),), ()):
-        chk.violation(rule4, g.where(), "get_random_moves does not build one row per `range(length)`", expected="for i in range(length)", found=[show(l.source) for l in ml],
+        chk.violation(rule4, f.where(), "gen_rnd_board does not return get_random_moves(length, width, force_down) as the arrows (returns `%s`)" % show(ret[1][0])[:80],
+                      expected="get_random_moves(length, width, force_down)", found=show(ret[1][0])[:120], construct="gen_rnd_board moves")
+    sg = SymX(ctx, g, inline_depth=1).run()
+    mret = sg.ret
+    gl, gw, gfd = ("v", g.params[0]), ("v", g.params[1]), ("truthy", ("v", g.params[2]))
+    if mret[0] != "res":
+        chk.undecided(rule4, g.where(), "get_random_moves returns `%s`" % show(mret)[:80])
+        return
+    L = sg.loops[mret[1]]
+    var = mret[2]
+    if L.kind != "for" or L.source != ("call", "range", (gl,), ()) or L.init.get(var) != ("list", ()) or L.has_break or L.cont != FALSE:
+        chk.violation(rule4, g.where(), "get_random_moves does not build one row per `range(length)`", expected="for i in range(length)", found=show(L.source),
                       construct="get_random_moves rows")
         return
-    L = ml[0]
-    var = [v for v in L.update if L.init.get(v) == ("list", ())]
-    if len(var) != 1:
-        chk.undecided(rule4, g.where(), "moves accumulator not identified")
-        return
-    u = L.update[var[0]]
-    acc = ("acc", L.id, var[0])
-    fd = ("truthy", ("v", g.params[2]))
-    w = ("v", g.params[1])
+    from ..symx import assume_deep as assume
+    acc = ("acc", L.id, var)
+    u = L.update[var]
+    rr = (("call", "random.randrange", (C(0), gw), ()), ("call", "random.randrange", (gw,), ()))
 
-    def choices(pop):
-        return lambda t: t[0] == "call" and t[1] == "random.choices" and t[2] and t[2][0] == ("list", tuple(C(x) for x in pop)) and dict(t[3]).get("k") == w
-    if u[0] == "ite" and u[1] == fd:
-        forced, free = u[2], u[3]
-        ok_free = free[0] == "cat" and free[1] == acc and free[2][0] == "list" and len(free[2][1]) == 1 and choices([0, 1, 2])(free[2][1][0])
-        # forced: acc ++ [choices([0,1,2,3])] with one element set to 3 at randrange(0, width)
-        ok_forced = False
-        if forced[0] == "setitem":
-            pass
-        row_sets = [e for e in L.effects if e[1] == "setitem"]
-        forced_rows = [t for t in C02._sub(forced) if choices([0, 1, 2, 3])(t)]
-        rr = ("call", "random.randrange", (C(0), w), ())
-        rr2 = ("call", "random.randrange", (w,), ())
-        sets3 = [e for e in row_sets if e[0] == fd and e[4] == C(3) and e[3] in (rr, rr2) and e[2][0] == "idx" and e[2][2] == ("elem", L.id)]
-        if forced_rows and len(sets3) == 1:
-            ok_forced = True
-        if ok_free:
-            chk.ok(rule5, g.where(L.node), "without force_down every row is random.choices([0, 1, 2], k=width): no down-only tile")
-        else:
-            chk.violation(rule5, g.where(L.node), "without force_down a row is `%s`" % show(free)[:120], expected="choices([0,1,2], k=width)", found=show(free)[:160],
-                          construct="get_random_moves free population")
-        if ok_forced:
-            chk.ok(rule5, g.where(L.node), "with force_down every row is random.choices([0, 1, 2, 3], k=width) and moves[i][randrange(0, width)] = 3: at least one down-only tile per row")
-        else:
-            chk.violation(rule5, g.where(L.node), "with force_down a row is not `choices([0,1,2,3], k=width)` with one position in range(width) forced to 3 (row sets: %s)" % [
-                (show(e[3]), show(e[4])) for e in row_sets], expected="one forced 3 per row", found=show(forced)[:160], construct="get_random_moves forced population")
+    def row_of(flag):
+        t = assume(u, gfd, flag)
+        if not (t[0] == "cat" and t[1] == acc and t[2][0] == "list" and len(t[2][1]) == 1):
+            return None, None
+        row = t[2][1][0]
+        forced = None
+        if row[0] == "setitem":
+            forced = (row[2], row[3])
+            row = row[1]
+        sets = [e for e in L.effects if e[1] == "setitem" and e[2][0] == "idx" and e[2][2] == ("elem", L.id) and assume(e[0], gfd, flag) == TRUE]
+        if sets and forced is None:
+            forced = (assume(sets[0][3], gfd, flag), assume(sets[0][4], gfd, flag))
+        return row, forced
+
+    def population(row):
+        if row is not None and row[0] == "call" and row[1] == "random.choices" and row[2] and dict(row[3]).get("k") == gw and row[2][0][0] == "list" \
+                and all(is_const(x) for x in row[2][0][1]):
+            return [x[1] for x in row[2][0][1]]
+        return None
+    free_row, free_forced = row_of(False)
+    forced_row, forced_set = row_of(True)
+    pf, pd = population(free_row), population(forced_row)
+    if pf is None or pd is None:
+        chk.undecided(rule5, g.where(L.node), "row construction not recognised as random.choices(<literal population>, ..., k=width): %s" % show(u)[:140])
+        return
+    if sorted(pf) == [0, 1, 2] and free_forced is None:
+        chk.ok(rule5, g.where(L.node), "without force_down every row is random.choices([0, 1, 2], k=width): no down-only tile")
     else:
-        chk.undecided(rule5, g.where(L.node), "row construction `%s` is not a branch on force_down" % show(u)[:120])
+        chk.violation(rule5, g.where(L.node), "without force_down a row is drawn from %s%s" % (pf, " and a tile is forced to %s" % show(free_forced[1]) if free_forced else ""),
+                      expected="choices([0,1,2], k=width)", found=str(pf), construct="get_random_moves free population")
+    if sorted(pd) == [0, 1, 2, 3] and forced_set is not None and forced_set[0] in rr and forced_set[1] == C(3):
+        chk.ok(rule5, g.where(L.node), "with force_down every row is random.choices([0, 1, 2, 3], k=width) and one position randrange(0, width) is set to 3: at least one down-only tile per row")
+    else:
+        chk.violation(rule5, g.where(L.node), "with force_down a row is drawn from %s with forced tile %s; specification: population [0,1,2,3] and one position in range(width) forced to 3" % (
+            pd, (show(forced_set[0]), show(forced_set[1])) if forced_set else None), expected="one forced 3 per row", found=str(pd), construct="get_random_moves forced population")
 
 
 def reward_formula(val, U, m):
